@@ -363,7 +363,8 @@ Record sinv (s : sst) : Prop := mksinv {
    frame order and splitting is allowed), not a function. *)
 Inductive lstep :=
 | LReq (sid n : Z) | LWin (sid inc : Z) | LSetIW (v : Z) | LSetMF (v : Z) | LRst (sid : Z).
-Inductive levent := EData (sid len : Z) (es : bool) | EAck | EDead.
+Inductive levent := EData (sid len : Z) (es good : bool) | EAck | EDead.
+(* good = the payload continues the byte sequence the handler wrote for this stream (no loss, duplication, reordering) *)
 
 (* per stream: id, send window as the client computes it, octets of the response body still expected,
    status 0 = open, 1 = reset by the client during the current step (frames already in flight tolerated), 2 = closed *)
@@ -424,7 +425,8 @@ Definition levt (s : lstate) (e : levent) : option lstate :=
       ack_iw s r v d
     | (false, v) :: r => Some (mkl (l_cw s) (l_iw s) v r (l_last_iw s) (l_str s) (l_dead s))
     end
-  | EData sid len es =>
+  | EData sid len es good =>
+    if negb good then None else                                    (* octets lost, duplicated or out of order *)
     match find_stream sid (l_str s) with
     | None => None                                                  (* DATA on a stream never requested *)
     | Some x =>
@@ -465,4 +467,18 @@ Fixpoint lvalidate (s : lstate) (script : list lstep) (obs : list (list levent))
     | None => false
     end
   | _, _ => false
+  end.
+
+(* a trace every correct server may produce: it acknowledges SETTINGS and sends no DATA at all *)
+Definition lcanon (script : list lstep) : list (list levent) :=
+  map (fun a => match a with LSetIW _ | LSetMF _ => [EAck] | _ => [] end) script.
+
+(* executable form of wf_sop *)
+Definition wf_sopb (o : sop) : bool :=
+  match o with
+  | SNew _ i => (0 <=? i) && (i <=? 2147483647)
+  | SWin _ n => (-1073741824 <=? n) && (n <=? 2147483647)
+  | SMax v => (0 <? v) && (v <? 2147483648)
+  | SAdd (FData _ _ l _) => 0 <=? l
+  | _ => true
   end.
